@@ -375,7 +375,7 @@ def run(ctx):
         main = [(b, True) for b in heavy_pin + heavy_nopin + tri_pin]
     ctx.run("C16.has_finite_simples", main, chunk=6,
             rule="bases of <= 2 perms (length 1-4; quick: all that fail the special-simples test + 80 seeded that pass it; "
-                 "thorough: all 594) + classics + seeded 3-element bases that pass the special-simples test; the flag says whether the check_all / dfa= routes are also exercised when the special-simples test "
+                 "thorough: all 561) + classics + seeded 3-element bases that pass the special-simples test; the flag says whether the check_all / dfa= routes are also exercised when the special-simples test "
                  "already fails (quick: every 8th); non-trivial = the pin-sequence automaton is consulted")
     ctx.add_sample("C16.has_finite_simples", (classics[5], True))
 
